@@ -33,10 +33,31 @@ def space():
     return [[list(map(float, p)) for p in m] for m in multisets_upto(lattice_points(2, lo=-2), 2)]
 
 
+_SHARED = {}
+
+
+def shared(D):
+    """One array object per diagram and case: the SAME objects are passed to successive calls (different
+    M, different partners), so a call that modifies its arguments corrupts a later one."""
+    k = id(D)
+    if k not in _SHARED:
+        a = farr(D)
+        _SHARED[k] = (a, a.tobytes(), D)
+    return _SHARED[k][0]
+
+
+def shared_unchanged(ctx):
+    for a, b, D in _SHARED.values():
+        ctx.valid()
+        if a.tobytes() != b:
+            ctx.violation("argument-modified", "sliced_wasserstein modified an argument array", observed=a.tolist(), expected=D)
+    _SHARED.clear()
+
+
 def sw(ctx, A, B, M):
     import persim
 
-    return ctx.call(persim.sliced_wasserstein, farr(A), farr(B), M=M)
+    return ctx.call(persim.sliced_wasserstein, shared(A), shared(B), M=M)
 
 
 def tol_of(A, B):
@@ -55,6 +76,13 @@ def check_val(ctx, sig, v, A, B, M, what):
 
 
 def pair(ctx, A, B):
+    try:
+        return _pair(ctx, A, B)
+    finally:
+        shared_unchanged(ctx)
+
+
+def _pair(ctx, A, B):
     import persim
 
     out = {}
@@ -120,6 +148,7 @@ def msweep(ctx, A, B, m_hi):
         ctx.state((A, B, M))
         check_val(ctx, "value-M", sw(ctx, A, B, M), A, B, M, "M=%d" % M)
     ctx.nontriv("all_M_up_to_%d" % m_hi, key=(A, B))
+    shared_unchanged(ctx)
 
 
 def run_case(case, ctx):
